@@ -1,10 +1,10 @@
 (* C16 — Programs and primitive values are shareable across goroutines without data races (PARTIAL).
-   ONLY theorem statements; each is closed by [exact] of a lemma of C16/Proofs.v.
+   ONLY theorem statements; each is closed by [exact] of a lemma of C16/{Proofs,Locks,Once}.v.
    What is proved is about the interleaving model of C16/Model.v, whose event lists are a hand
    transcription of which memory the Go code touches (asserted; sampled by the -race stage). *)
 From Coq Require Import List Arith NArith Bool.
 Import ListNotations.
-From Verif.C16 Require Import Model Proofs Locks.
+From Verif.C16 Require Import Model Proofs Locks Once.
 
 (* 1. For ANY number of threads and ANY interleaving: if every thread writes only locations it owns and
       touches no location owned by another thread (all its accesses to shared locations are reads),
@@ -15,19 +15,18 @@ Theorem readonly_no_race : forall (ths : list (list event)) (tr : trace),
   ~ race tr.
 Proof. exact Proofs.readonly_no_race. Qed.
 
-(* 2. The modelled event list of a Program run (any sequence of modelled VM steps other than the
-      template-cell redefinition of finding C16-N1) contains no write to Program-owned memory and respects
-      ownership. *)
-Theorem program_run_readonly : forall r p ops, forallb vop_ok ops = true ->
-  forall e, In e (events_of_run r p ops) -> writes_prog p e = false /\ respects r e.
+(* 2. The modelled event list of a Program run — ANY sequence of modelled VM steps, the redefinition of
+      tagged-template cells included (they are per-runtime copies since fix 34e62dd) — contains no write
+      to Program-owned memory and respects ownership. *)
+Theorem program_run_readonly : forall r p ops e,
+  In e (events_of_run r p ops) -> writes_prog p e = false /\ respects r e.
 Proof. exact Proofs.program_run_readonly. Qed.
 
 (* 3. Hence: any number of Runtimes running one Program concurrently, each also using shared
       ascii/unicode strings, symbols, numbers, booleans, null/undefined — race-free under every schedule. *)
 Theorem race_free_shared_program : forall (p : N) (ths : list (list event)),
   (forall t, t < length ths ->
-     exists ops uses, forallb vop_ok ops = true /\
-                      nth t ths [] = events_of_run t p ops ++ events_of_prims t uses) ->
+     exists ops uses, nth t ths [] = events_of_run t p ops ++ events_of_prims t uses) ->
   forall tr, interleaving ths tr -> ~ race tr.
 Proof. exact Proofs.race_free_shared_program. Qed.
 
@@ -36,24 +35,7 @@ Theorem primitive_share : forall (ths : list (list event)),
   forall tr, interleaving ths tr -> ~ race tr.
 Proof. exact Proofs.primitive_share. Qed.
 
-(* 4. The faithful model of the CURRENT importedString refutes the property (finding F14): two goroutines
-      calling Length() on one unscanned imported string, a value-consistent schedule, a race on [scanned]. *)
-Theorem imported_race_refuted : forall s, exists tr,
-  interleaving [ev_length s false; ev_length s false] tr /\ consistent tr /\ lock_wf tr /\ race tr.
-Proof. exact Proofs.imported_race_refuted. Qed.
-
-(* 5. Finding C16-N1: the permitted no-op redefinition of a tagged-template cell writes Program-owned memory;
-      two runtimes doing it race (even when scheduled one after the other: nothing orders them). *)
-Theorem tmpl_redefine_race_refuted : forall p site raw i, exists tr,
-  interleaving [events_of_run 0 p [OTmplRedefine site raw i]; events_of_run 1 p [OTmplRedefine site raw i]] tr /\
-  race tr.
-Proof. exact Proofs.tmpl_redefine_race_refuted. Qed.
-
-(* 6. Objects do not cross runtimes: toValue rejects an Object of another runtime with a TypeError. *)
-Theorem cross_runtime_object_rejected : forall r rt, rt <> r -> to_value r (GObject rt) = TVTypeError.
-Proof. exact Proofs.cross_runtime_object_rejected. Qed.
-
-(* 7. The lockset theorem: in ANY trace that respects mutual exclusion, locations that are only accessed
+(* 4. The lockset theorem: in ANY trace that respects mutual exclusion, locations that are only accessed
       while holding mutex m are never raced on (critical sections are totally ordered by happens-before). *)
 Theorem guarded_no_race : forall tr m (G : loc -> Prop),
   lock_wf tr ->
@@ -62,28 +44,52 @@ Theorem guarded_no_race : forall tr m (G : loc -> Prop),
   forall t k l v, nth_error tr i = Some (t, Acc k l v) -> ~ G l.
 Proof. exact Locks.guarded_no_race. Qed.
 
-(* 8. What a fix of F14 must achieve: the SAME importedString method bodies (every method, either branch),
-      each executed under one mutex per string, by any number of goroutines, are race-free under every
-      interleaving that respects mutual exclusion. (A sync.Once-based fix is modelled in Model.v
-      [ev_length_once]; its race-freedom is not proved here.) *)
-Theorem imported_race_free_if_locked : forall (s : N) (ths : list (list event)) (tr : trace),
-  (forall t, t < length ths -> exists m seen, nth t ths [] = ev_imethod_locked s m seen) ->
-  interleaving ths tr -> lock_wf tr -> ~ race tr.
-Proof. exact Locks.imported_race_free_if_locked. Qed.
+(* 5. The scan-once protocol of importedString as it is in the code now (mutex scanMu + atomic scanDone,
+      fix 17789cc): ANY number of goroutines, each performing ANY sequence of importedString methods on ANY
+      strings (every method, every path through isScanned/ensureScanned/scan), under ANY interleaving that
+      respects mutual exclusion and in which every Load of a scanDone flag sees 1 iff a Store precedes it:
+      no data race.  The reads of [u] after a Load that observed the flag are ordered after the write of [u]
+      by the Store->Load happens-before edge; the writes by the mutex. *)
+Theorem imported_race_free : forall (ths : list (list event)) (tr : trace),
+  (forall t, t < length ths -> exists calls, nth t ths [] = events_of_imported calls) ->
+  interleaving ths tr -> lock_wf tr -> consistent tr -> ~ race tr.
+Proof. exact Once.imported_race_free. Qed.
 
-(* non-vacuity of 8: a mutual-exclusion-respecting, value-consistent two-goroutine schedule exists *)
-Example locked_schedule_nonvacuous :
-  let ths := [ev_imethod_locked 0 IEnsureThenU false; ev_imethod_locked 0 IEnsureThenU true] in
-  let tr := map (pair 0) (nth 0 ths []) ++ map (pair 1) (nth 1 ths []) in
-  interleaving ths tr /\ lock_wf tr /\ consistent tr.
-Proof. exact Locks.locked_schedule_nonvacuous. Qed.
+(* 6. Everything together: goroutines with their own Runtimes, each performing any sequence of steps of
+      shared Programs, operations on shared ascii/unicode strings, symbols, numbers, and methods of shared
+      imported strings — race-free under every such interleaving. *)
+Theorem sharing_race_free : forall (ths : list (list event)) (tr : trace),
+  (forall t, t < length ths -> exists acts, nth t ths [] = events_of_actions t acts) ->
+  interleaving ths tr -> lock_wf tr -> consistent tr -> ~ race tr.
+Proof. exact Once.sharing_race_free. Qed.
 
-(* non-vacuity of 1-3: the hypotheses are satisfiable by a real two-runtime execution that shares a
-   Program with a regexp literal, a tagged template and a shared unicode string *)
+(* 7. Objects do not cross runtimes: toValue rejects an Object of another runtime with a TypeError. *)
+Theorem cross_runtime_object_rejected : forall r rt, rt <> r -> to_value r (GObject rt) = TVTypeError.
+Proof. exact Proofs.cross_runtime_object_rejected. Qed.
+
+(*    ... but a value passed directly as an argument of another runtime's Callable is not converted at all
+      (open finding C16-N2): the implementation model differs from the specification there. *)
+Theorem call_arg_refuted : exists r g, call_arg_impl r g <> to_value r g.
+Proof. exact Proofs.call_arg_refuted. Qed.
+
+(* 8. The race notion is not vacuous: two unsynchronised accesses, one a write, do race. *)
+Theorem unsynchronised_access_races : forall l, race [(0, Wr l); (1, Rd l)].
+Proof. exact Proofs.unsynchronised_access_races. Qed.
+
+(* non-vacuity of 5/6: a contended execution (goroutine 1 sees the flag unset, goroutine 0 scans and
+   publishes, goroutine 1 then takes the mutex and sees the flag set) satisfies every hypothesis *)
+Example sharing_nonvacuous :
+  (forall t, t < length contended_threads -> exists acts, nth t contended_threads [] = events_of_actions t acts) /\
+  interleaving contended_threads contended_trace /\ lock_wf contended_trace /\ consistent contended_trace.
+Proof. exact Once.sharing_nonvacuous. Qed.
+
+(* non-vacuity of 1-3: a real two-runtime execution that shares a Program with a regexp literal, a tagged
+   template whose cells are redefined, and a shared unicode string *)
 Example shared_run_nonvacuous :
-  let ops := [OFetch; ONewRegexp 1; ORegexExec 1; OTaggedTmpl 2; OTmplRead 2 false 0; OEnterFunc 3 true; OEvalBindVar] in
+  let ops := [OFetch; ONewRegexp 1; ORegexExec 1; OTaggedTmpl 2 3; OTmplRead 2 false 0; OTmplRedefine 2 false 0;
+              OEnterFunc 3 true; OEvalBindVar] in
   let th t := events_of_run t 7%N ops ++ events_of_prims t [(VUnicode 5%N, PHash); (VSym 1%N, PAsKey)] in
-  let tr := interleave ([0;1;0;1;1;0;0;0;1;1;0;1;0;1] ++ repeat 0 30 ++ repeat 1 30) [th 0; th 1] in
+  let tr := interleave ([0;1;0;1;1;0;0;0;1;1;0;1;0;1] ++ repeat 0 40 ++ repeat 1 40) [th 0; th 1] in
   proj 0 tr = th 0 /\ proj 1 tr = th 1 /\ length tr = length (th 0) + length (th 1).
 Proof. vm_compute. repeat split. Qed.
 
@@ -91,8 +97,9 @@ Print Assumptions readonly_no_race.
 Print Assumptions program_run_readonly.
 Print Assumptions race_free_shared_program.
 Print Assumptions primitive_share.
-Print Assumptions imported_race_refuted.
-Print Assumptions tmpl_redefine_race_refuted.
-Print Assumptions cross_runtime_object_rejected.
 Print Assumptions guarded_no_race.
-Print Assumptions imported_race_free_if_locked.
+Print Assumptions imported_race_free.
+Print Assumptions sharing_race_free.
+Print Assumptions cross_runtime_object_rejected.
+Print Assumptions call_arg_refuted.
+Print Assumptions unsynchronised_access_races.
